@@ -495,8 +495,25 @@ def _npsum(eng, node, a, axis=None):
 @reg("numpy.average", "numpy.mean")
 def _average(eng, node, a, axis=None, weights=None):
     a = as_narr(eng, a)
+    if weights is not None and axis == 0 and len(a.shape) == 2:
+        # numpy: sum_i w_i * row_i / sum_i w_i  (ZeroDivisionError when the weights sum to zero)
+        w = as_narr(eng, weights)
+        r, c = a.shape
+        if w.shape != (r,):
+            raise Unsupported("weights shape")
+        tot = F(0)
+        for x in w.data:
+            tot = ops.arith("+", tot, x, eng.facts)
+        eng.div_guard(tot, node)
+        out = []
+        for j in range(c):
+            acc = F(0)
+            for i in range(r):
+                acc = ops.arith("+", acc, ops.arith("*", a.data[i * c + j], w.data[i], eng.facts), eng.facts)
+            out.append(ops.arith("/", acc, tot, eng.facts))
+        return NArr((c,), out)
     if weights is not None:
-        raise Unsupported("weighted average")
+        raise Unsupported("weighted average form")
     if axis == 0 and len(a.shape) == 2:
         r, c = a.shape
         if r == 0:
@@ -792,3 +809,23 @@ def _np_randint(eng, node, low, high=None, size=None):
     else:
         eng.assume(z3.And(I(low) <= r, r < I(high)))
     return r
+
+
+@reg("numpy.full")
+def _np_full(eng, node, shape, value, dtype=None):
+    shape = (shape,) if isinstance(shape, int) else tuple(shape)
+    if not all(isinstance(x, int) for x in shape):
+        raise Unsupported("np.full with symbolic shape")
+    n = 1
+    for x in shape:
+        n *= x
+    return NArr(shape, [value] * n)
+
+
+PI = z3.Real("pi")
+
+
+@reg("numpy.deg2rad")
+def _deg2rad(eng, node, x):
+    eng.facts.add(z3.And(PI > 3, PI < 4))
+    return ops.real(x) * PI / 180
